@@ -1,15 +1,16 @@
 #!/bin/bash
 # usage: tools/confirm_seed.sh <ID> <name>  — confirms /tmp/seed_<ID> (demo fails with the change, passes without),
 # stores it as /verif/seeded/<name>/ and removes the worktree
-ID=$1; NAME=$2; W=/tmp/seed_$ID
+ID=$1; NAME=$2; W=${SEEDDIR:-/tmp/seed_$ID}
 cd $W || exit 2
 PYX=$(git diff --name-only | grep -E '\.(pyx|h)$' | head -1)
 /venv/bin/python _seed/demo.py > /tmp/demo_with.log 2>&1; RC1=$?
 cp -r _seed /tmp/_seed_$ID
 git stash -q
 [ -n "$PYX" ] && { /venv/bin/python setup.py build_ext --inplace -j8 >/dev/null 2>&1; rm -rf build; }
-/venv/bin/python /tmp/_seed_$ID/demo.py > /tmp/demo_without.log 2>&1; RC2=$?
+/venv/bin/python _seed/demo.py > /tmp/demo_without.log 2>&1; RC2=$?
 git stash pop -q
+[ -n "$PYX" ] && { /venv/bin/python setup.py build_ext --inplace -j8 >/dev/null 2>&1; rm -rf build; }
 echo "$ID demo with change rc=$RC1, without rc=$RC2"
 mkdir -p /verif/seeded/$NAME
 cp /tmp/_seed_$ID/patch.diff /tmp/_seed_$ID/demo.py /verif/seeded/$NAME/
